@@ -536,7 +536,7 @@ def gen_build(rng, nrand, exhaustive_len=1, kinds=('g', 't')):
         yield f'B {kind} {rng.choice(tyv)} {hx(rng.choice(["n", "", "N-_.m", rstr(rng, 0, 4)]))} {",".join(seq)}'
 
 # ------------------------------------------------------------------ G-qops
-QK = ['chec\u212asum', 'vc\u017f_url', 'repo\u017fitory_url', 'cla\u00dfifier', 'cla\u017f\u017fifier', 'f\u0131le_name', 'TYPE', 'Checksum', '3rd-party', '7', '0a', '2FA', 'a/b', 'k/', '/', 'k,', 'k:', 'k@', 'k[', 'k^', 'k`', 'k{', 'k', 'key', '\u212a', '\u212aey', 'a', 'A', 'b', 'B', 'a.b', 'a_b', 'ab', '', '!', 'repository_url', 'checksum', 'é', 'K', 'buildtag', 'BuildTag', 'x-y.z_1', 'vcs_url', 'Type', 'download_url', 'file_name', 'platform', 'classifier']
+QK = ['A_b', 'File_Name', 'file_name', 'A!', 'Key name', 'aB\x00', 'Zé', 'X=y', 'chec\u212asum', 'vc\u017f_url', 'repo\u017fitory_url', 'cla\u00dfifier', 'cla\u017f\u017fifier', 'f\u0131le_name', 'TYPE', 'Checksum', '3rd-party', '7', '0a', '2FA', 'a/b', 'k/', '/', 'k,', 'k:', 'k@', 'k[', 'k^', 'k`', 'k{', 'k', 'key', '\u212a', '\u212aey', 'a', 'A', 'b', 'B', 'a.b', 'a_b', 'ab', '', '!', 'repository_url', 'checksum', 'é', 'K', 'buildtag', 'BuildTag', 'x-y.z_1', 'vcs_url', 'Type', 'download_url', 'file_name', 'platform', 'classifier']
 QV = ['', 'x', 'y']
 def qop_universe():
     ops = ['C', 't', 'l', 'tg', 'tc', 'td', 'tG', f'M:{hx("s")}', f'I:{hx("s")}', f'J:{hx("z")}', f'tr:{hx("u")}', f'tr:-']
@@ -623,6 +623,11 @@ def gen_pt(rng, n, maxlen=3):
             yield 'T ' + hx(name + suf); yield 'T ' + hx(name.upper() + suf); yield 'T ' + hx(suf + name)
         for ln in EXTRA['nums']:
             yield 'T ' + hx(name[:ln]); yield 'T ' + hx((name * 3)[:ln]); yield 'T ' + hx((name * 3)[:ln + 1]); yield 'T ' + hx(name + 'x' * max(0, ln + 1 - len(name)))
+    for name in SEVEN:
+        for k in range(1, 26):
+            yield 'T ' + hx(name + 'a' * k); yield 'T ' + hx(name + '-' + 'p' * (k - 1)); yield 'T ' + hx(name + ' ' * k)
+        for c0 in "#'\x03\r.-+0123456789@[`{":
+            yield 'T ' + hx(c0 + name[1:]); yield 'T ' + hx(c0 + name[1:].upper())
     for c in ['ｃａｒｇｏ', 'ｎpm', 'pypｉ', 'ţargo', 'nuŧet', 'gｅm', 'ɡem', 'ｍaven', 'сargo', 'nρm']: yield 'T ' + hx(c)
     for name in SEVEN:
         for i in range(len(name) + 1):
@@ -643,7 +648,7 @@ def gen_comb_purl(rng, n):
         if t['ty'] not in SEVEN: t['ty'] = rng.choice(SEVEN)
         yield f'M {hx(spelling_of(rng, t))}'
 def gen_comb(rng, n):
-    parts = ['', 'a', 'B', 'a/b', 'a/b/c', '/', 'a/', '/a', ':', 'a:b', 'a:b:c', 'g:a/b', 'a/b:c', ':a', 'a:', 'é/ü:x', '@s/p', 'a//b', 'A_.b', 'Æ/ǅ', 'a/b/v2', 'mod/v2', 'a/v10', 'v2', 'a/V2', 'a/v', 'a/v2x', 'x/y/z/v3', 'angular/cli', 'a.b/c.d:e.f']
+    parts = ['', 'a', 'B', 'a/b', 'a/b/c', '/', 'a/', '/a', ':', 'a:b', 'a:b:c', 'g:a/b', 'a/b:c', ':a', 'a:', 'é/ü:x', '@s/p', 'a//b', 'A_.b', 'Æ/ǅ', 'g::a', 'g:::', 'org.example::core', 'a/b/', '@angular/', 'x/', 'a/b/v2', 'mod/v2', 'a/v10', 'v2', 'a/V2', 'a/v', 'a/v2x', 'x/y/z/v3', 'angular/cli', 'a.b/c.d:e.f']
     for i in range(7):
         for s in parts: yield f'N {i} {hx(s)}'
     for _ in range(n):
@@ -670,7 +675,7 @@ def gen_pair(rng, n, kinds=('g', 't', 's', 'b', 'o')):
                            (f'Q:{hx("a")}:{hx("1")},U:{hx("zzz")}', f'Q:{hx("a")}:{hx("1")},Q:{hx("b")}:{hx("2")},U:{hx("aaa")}'),
                            (f'D:{hx("arch")}:-', '-'), (f'D:{hx("a")}:{hx("1")},D:{hx("b")}:-', f'D:{hx("a")}:{hx("1")}')]:
             yield f'K B {k} {ty} {hx("n")} {ops1} ~ B {k} {ty} {hx("n")} {ops2}'
-    for x, y in [('@acme', '%40acme'), ('my org', 'my%20org'), ('a%', 'a%25'), ('a/b', 'a%2Fb'), ('é', '%C3%A9'), ('a b', 'a+b')]:
+    for x, y in [('a\x020b', 'a b'), ('git\x040x', 'git@x'), ('a\tb', 'a%9b'), ('@acme', '%40acme'), ('my org', 'my%20org'), ('a%', 'a%25'), ('a/b', 'a%2Fb'), ('é', '%C3%A9'), ('a b', 'a+b')]:
         for f in ['S', 'N', 'V', 'U', 'Q']:
             for k, ty in (('g', hx('t')), ('s', hx('t')), ('b', hx('t')), ('t', '4')):
                 mk = lambda v: (f'B {k} {ty} {hx(v)} -' if f == 'N' else f'B {k} {ty} {hx("n")} ' + (f'Q:{hx("k")}:{hx(v)}' if f == 'Q' else f'{f}:{hx(v)}'))
@@ -744,7 +749,7 @@ def gen_pair(rng, n, kinds=('g', 't', 's', 'b', 'o')):
             yield f'K {pcase(t)} ~ {pcase(u)}'
 
 # ------------------------------------------------------------------ G-shape
-HOOKS = ['S', 'U', 'SU', 'sS', 'fn', 'nf', 'Sn', 'b', 'cb', 'bc', 'mb', 'x', 'qx', 'xq', 'k', 'f', 'n', 's', 'v', 'V', 'u', 'e', 'q', 'm', 'c', 'N', 't', 'nN', 'Nn', 'mc', 'cm', 'se', 'qf', 'fq', 'Vv', 'vV', 'nq', 'eq', 'sVuqc', 'tt', 'ne', 'mn', 'nm']
+HOOKS = ['o', 'eo', 'eb', 'be', 'ee', 'ebq', 'S', 'U', 'SU', 'sS', 'fn', 'nf', 'Sn', 'b', 'cb', 'bc', 'mb', 'x', 'qx', 'xq', 'k', 'f', 'n', 's', 'v', 'V', 'u', 'e', 'q', 'm', 'c', 'N', 't', 'nN', 'Nn', 'mc', 'cm', 'se', 'qf', 'fq', 'Vv', 'vV', 'nq', 'eq', 'sVuqc', 'tt', 'ne', 'mn', 'nm']
 FAM_INPUTS = ['pkg:café/n', 'pkg:py٣/n', 'pkg:\u212a8s/n', 'pkg:Custom/n', 'pkg:7custom/n', 'pkg:custom/n?checksum=', 'pkg:custom/n?x=', 'pkg:custom/n?checksum=SHA1:AB', 'pkg:custom/n', 'pkg:CuStOm/N@1?k=v#s', 'pkg:other/a/b/n', 'pkg:custom', 'pkg:cus%74om/n', 'pkg:cu stom/n', 'pkg:/custom/n', 'pkg:custom/',
               'pkg:custom/n?zz=&checksum=A:00', 'pkg:custom/n?checksum=bad', 'pkg:custom/n?=x', 'pkg:custom/%80', 'pkg:custom/n#%2e', 'x:custom/n', 'pkg:',
               'pkg:custom/n@%FF', 'pkg:custom/a%2Fb/n', 'pkg:Custom2/n', 'pkg:custom/n?Hk=old&ZZ=1']
@@ -792,5 +797,5 @@ def gen_serde(rng, n):
             base = 'pkg:npm/g/n?download_url=https://e.x/'
             if m > len(base):
                 for k in 'gt': yield f'J {k} {hx(json.dumps(base + "a" * (m - len(base))))}'
-    for s in ['pkg:pypi/Django_REST.framework@3.14', 'pkg:nuget/Newtonsoft.Json@13.0.1', 'pkg:maven/commons-io@2.11', 'pkg:PyPI/Foo__Bar', 'pkg:nuget/\u0130', 'pkg:NuGet/A\u00c9']:
+    for s in ['pkg:pkg:type/name', 'pkg:pkg:npm/%40angular/cli@1.0.0', 'pkg:pkg:pkg:t/n@1?k=v#s', 'pkg:pkg://t/n', 'pkg:pkg/name', 'pkg:t/pkg:n', 'pkg:pypi/Django_REST.framework@3.14', 'pkg:nuget/Newtonsoft.Json@13.0.1', 'pkg:maven/commons-io@2.11', 'pkg:PyPI/Foo__Bar', 'pkg:nuget/\u0130', 'pkg:NuGet/A\u00c9']:
         for k in 'gt': yield f'J {k} {hx(json.dumps(s))}'
